@@ -329,7 +329,23 @@ def _check_duration_definition(prog: Program, res: Result):
     ht_arg = bq.get("hour_time")
     ht_name = ht_arg.id if isinstance(ht_arg, ast.Name) else None
     ht = defs.get(ht_name) if ht_name else ht_arg
-    okh = ht is not None and ast.unparse(ht).replace(" ", "") in ("np.array(range(2*HRS_IN_DAY+1))", "np.arange(2*HRS_IN_DAY+1)", "np.arange(0,2*HRS_IN_DAY+1)")
+    if ht is not None:
+        from .search_common import expand_locals
+
+        ht_x = expand_locals(fi.node, ht, getattr(bq.get("hour_time"), "lineno", 10 ** 9))
+        # the number of points, as a value: 2 * HRS_IN_DAY + 1 however it is spelled (n_hours = 2 * HRS_IN_DAY; .. n_hours + 1)
+        e_ = Engine(prog, fi, Hooks())
+        n_arg = None
+        if isinstance(ht_x, ast.Call) and attr_chain(ht_x.func) in ("np.arange", "numpy.arange") and len(ht_x.args) in (1, 2) and not ht_x.keywords:
+            if len(ht_x.args) == 1 or (isinstance(ht_x.args[0], ast.Constant) and ht_x.args[0].value == 0):
+                n_arg = ht_x.args[-1]
+        elif isinstance(ht_x, ast.Call) and attr_chain(ht_x.func) in ("np.array", "numpy.array", "np.asarray") and len(ht_x.args) == 1 and isinstance(ht_x.args[0], ast.Call) \
+                and attr_chain(ht_x.args[0].func) == "range" and len(ht_x.args[0].args) == 1:
+            n_arg = ht_x.args[0].args[0]
+        n_val = e_.eval(n_arg, State()) if n_arg is not None else None
+        okh = isinstance(n_val, Rat) and n_val.equals(Rat.const(2) * e_.eval(ast.parse("HRS_IN_DAY", mode="eval").body, State()) + Rat.const(1))
+    else:
+        okh = False
     res.ob("R07.8", f"the time axis is 0..48 h in hourly steps ({ast.unparse(ht) if ht is not None else '?'})", okh, prog.loc(fi, fi.node))
     if not okh:
         res.violation("R07.8", f"hour-axis|{ast.unparse(ht)[:50] if ht is not None else None}", prog.loc(fi, fi.node), q, f"the two-day time axis is {ast.unparse(ht) if ht is not None else '?'} instead of the 49 hourly points 0..48")
